@@ -105,7 +105,7 @@ def record_length_slice():
         if 'total_obs_num_samples' in seg and isinstance(st, ast.Assign):
             end = i
     if start is None or end is None:
-        raise core.HarnessError("record(): length section not found (source refactored)")
+        raise core.SliceMissing("record(): length section not found (source refactored)")
     # include every statement between, whatever order they are in
     last = end
     for i, st in enumerate(body):
